@@ -1240,7 +1240,7 @@ Proof.
 Qed.
 
 (* ---- Table.LookupHost on a built table never panics ---- *)
-Theorem lookup_host_total hostglob_ok bt host total : bt_good bt -> lookup_host hostglob_ok bt host total <> Panic.
+Theorem lookup_host_total bt host total : bt_good bt -> lookup_host bt host total <> Panic.
 Proof. intros Hg. unfold lookup_host. now apply look_hosts_np. Qed.
 
 (* ---- non-vacuity of [watch_never_crashes]: its hypothesis holds for a concrete history (the one that
@@ -1264,3 +1264,16 @@ Proof.
   split; [exact H|].
   exact (watch_never_crashes pw_wit canon_wit glob_wit stable_order stable_perm crash_history (Watch.w_init btable []) H).
 Qed.
+
+Theorem lookup_host_total_built pweight canon glob_ok order text bt host total : perm_order order ->
+  (forall ds, scan_parse pweight text = Ok ds -> Forall route_ok (reached canon glob_ok [] ds)) ->
+  full_build pweight canon glob_ok (ring_faithful order) text = Ok bt ->
+  lookup_host bt host total <> Panic.
+Proof.
+  intros Hord H Hb. apply lookup_host_total.
+  exact (proj2 (full_build_total pweight canon glob_ok order Hord text H) bt Hb).
+Qed.
+
+Theorem watch_inv_reachable (build : str -> outcome btable) t0 h :
+  Proofs.Watch.inv btable (build_opt build) (Watch.run btable (build_opt build) (Watch.w_init btable t0) h).
+Proof. exact (Proofs.Watch.run_init_inv btable (build_opt build) t0 h). Qed.
